@@ -199,6 +199,7 @@ ORDER_PRESERVING = {
     "outer_iter", "outer_iter_mut", "indexed_iter", "indexed_iter_mut", "from", "and", "into", "aview1",
     "enumerate", "map", "mapv", "into_dyn", "reborrow", "as_slice_of_vec", "as_slice", "as_mut_slice",
     "into_values", "values", "keys", "index", "index_mut", "collect",
+    "zip",      # a zip nested in a zip: its own operands are judged at its own call site
 }
 # `as_slice`/`index` above: only reached on Vec/slice receivers – the ndarray `as_slice*` family is
 # caught by name+crate in ORDER_DISTURBING_ND below (and by R1).
